@@ -422,12 +422,35 @@ pub fn core_build(keys: &LibKeys, nonce: &[u8], msg: &str, footer: Option<&str>,
           b.set_implicit_assertion(ImplicitAssertion::from("decoy-assertion"));
         }
       }
-      b.set_payload(Payload::from(msg));
-      if let Some(f) = footer {
-        b.set_footer(Footer::from(f));
-      }
-      if let Some(a) = assertion {
-        b.set_implicit_assertion(ImplicitAssertion::from(a));
+      // the three setters in each of three orders (no setter may undo what another one set)
+      match msg.len() % 3 {
+        0 => {
+          b.set_payload(Payload::from(msg));
+          if let Some(f) = footer {
+            b.set_footer(Footer::from(f));
+          }
+          if let Some(a) = assertion {
+            b.set_implicit_assertion(ImplicitAssertion::from(a));
+          }
+        }
+        1 => {
+          if let Some(a) = assertion {
+            b.set_implicit_assertion(ImplicitAssertion::from(a));
+          }
+          if let Some(f) = footer {
+            b.set_footer(Footer::from(f));
+          }
+          b.set_payload(Payload::from(msg));
+        }
+        _ => {
+          if let Some(f) = footer {
+            b.set_footer(Footer::from(f));
+          }
+          b.set_payload(Payload::from(msg));
+          if let Some(a) = assertion {
+            b.set_implicit_assertion(ImplicitAssertion::from(a));
+          }
+        }
       }
       b
     }};
@@ -601,6 +624,9 @@ pub enum ClaimSpec {
   /// `IssuerClaim::default()` ... `IssuedAtClaim::default()` (0 iss, 1 sub, 2 aud, 3 jti, 4 exp, 5 nbf, 6 iat): the form the
   /// crate's documentation uses to register a validator for a registered claim
   DefaultOf(u8),
+  /// `CustomClaim::try_from((&str, &AtomicU64))`: the claim value is a REFERENCE to a counter holding n when the claim is
+  /// set; the harness changes the counter right afterwards (set_claim takes a snapshot - what is set is what is built)
+  SharedCounter(String, u64),
 }
 
 pub const DEFAULT_KEYS: [&str; 7] = ["iss", "sub", "aud", "jti", "exp", "nbf", "iat"];
@@ -788,7 +814,7 @@ impl ClaimSpec {
       ClaimSpec::Exp(_) | ClaimSpec::ExpOwned(_) => "exp",
       ClaimSpec::Nbf(_) | ClaimSpec::NbfOwned(_) => "nbf",
       ClaimSpec::Iat(_) | ClaimSpec::IatOwned(_) => "iat",
-      ClaimSpec::Custom(k, _) | ClaimSpec::CustomOwned(k, _) | ClaimSpec::CustomKeyOnly(k) | ClaimSpec::Native(k, _) | ClaimSpec::Any(k, _) => k,
+      ClaimSpec::Custom(k, _) | ClaimSpec::CustomOwned(k, _) | ClaimSpec::CustomKeyOnly(k) | ClaimSpec::Native(k, _) | ClaimSpec::Any(k, _) | ClaimSpec::SharedCounter(k, _) => k,
       ClaimSpec::DefaultOf(i) => DEFAULT_KEYS[*i as usize % 7],
     }
   }
@@ -810,6 +836,7 @@ impl ClaimSpec {
       ClaimSpec::Native(_, n) => n.expected(),
       // the documented defaults: empty text, or the placeholder instant for the time claims
       ClaimSpec::DefaultOf(i) => Value::String(if *i % 7 >= 4 { "2019-01-01T00:00:00+00:00".to_string() } else { String::new() }),
+      ClaimSpec::SharedCounter(_, n) => serde_json::json!(*n),
     }
   }
 }
@@ -833,6 +860,104 @@ pub fn fail_a_claim_on_throwaway_builders() {
       b.set_claim(c);
     }
   });
+}
+
+// ---------------------------------------------------------------- application callbacks that misbehave
+
+/// payload type of a panic that is not a string
+#[derive(Debug)]
+pub struct Refusal(pub u16);
+
+fn validator_panics_with_text(_k: &str, _v: &Value) -> Result<(), PasetoClaimError> {
+  panic!("harness validator: refusing by panicking (an application bug)")
+}
+fn validator_panics_with_a_value(_k: &str, _v: &Value) -> Result<(), PasetoClaimError> {
+  std::panic::panic_any(Refusal(403))
+}
+fn validator_rejects(k: &str, _v: &Value) -> Result<(), PasetoClaimError> {
+  Err(PasetoClaimError::CustomValidation(k.to_string()))
+}
+pub const VALIDATOR_PANICS_TEXT: &ValidatorFn = &validator_panics_with_text;
+pub const VALIDATOR_PANICS_VALUE: &ValidatorFn = &validator_panics_with_a_value;
+pub const VALIDATOR_REJECTS: &ValidatorFn = &validator_rejects;
+
+/// a claim value whose `Serialize` impl panics part-way
+pub struct PanickingValue;
+impl Serialize for PanickingValue {
+  fn serialize<S: serde::Serializer>(&self, s: S) -> Result<S::Ok, S::Error> {
+    use serde::ser::SerializeMap;
+    let mut m = s.serialize_map(Some(2))?;
+    m.serialize_entry("first", &1)?;
+    panic!("harness claim: Serialize panics part-way (an application bug)")
+  }
+}
+pub struct PanickingClaim;
+impl PasetoClaim for PanickingClaim {
+  fn get_key(&self) -> &str {
+    "panics"
+  }
+}
+impl Serialize for PanickingClaim {
+  fn serialize<S: serde::Serializer>(&self, s: S) -> Result<S::Ok, S::Error> {
+    PanickingValue.serialize(s)
+  }
+}
+
+/// What an application with bugs in its own callbacks does to the library, on the calling thread and - for whatever is
+/// process-wide - for everybody: `kind` bit 1 validators that panic (with a message / with a typed value) while an authentic
+/// token is parsed, on a worker thread and on this one; bit 2 a claim whose Serialize panics while a token is built
+/// (set_claim, extend_claims + build); bit 4 twenty parses in a row that end in a rejecting validator. All of it is contained
+/// (catch_unwind / join). Returns a description if one of the parses returned Ok although its validator never returned Ok.
+pub fn callbacks_misbehave(p: Proto, lk: &LibKeys, kind: u8) -> Option<String> {
+  let nonce = &[11u8; 32][..if p == Proto::V2L { 24 } else { 32 }];
+  let token = match core_build(lk, nonce, "{\"sub\":\"x\",\"role\":\"guest\",\"exp\":\"2999-01-01T00:00:00Z\"}", None, None) {
+    Ok(t) => t,
+    Err(_) => return None,
+  };
+  let role = ClaimSpec::Custom("role".into(), Value::Null);
+  let mut finding = None;
+  if kind & 1 != 0 {
+    for layer in [Layer::Generic, Layer::Prelude] {
+      for f in [VALIDATOR_PANICS_TEXT, VALIDATOR_PANICS_VALUE] {
+        let r = crate::engine::catch(|| {
+          let mut parser = new_parser(p, layer);
+          let _ = parser.validate(&role, f);
+          parser.parse(&token, lk).is_ok()
+        });
+        if r == Ok(true) && finding.is_none() {
+          finding = Some(format!("a {} {} parse returned Ok although the validator registered for \"role\" panicked instead of returning Ok", p.label(), layer.label()));
+        }
+      }
+    }
+  }
+  if kind & 2 != 0 {
+    let _ = crate::engine::catch(|| {
+      let mut b = GenericBuilder::<V4, Local>::default();
+      b.set_claim(PanickingClaim);
+    });
+    let _ = crate::engine::catch(|| {
+      let mut b = GenericBuilder::<V4, Local>::default();
+      let mut m: std::collections::HashMap<String, Box<dyn erased_serde::Serialize>> = std::collections::HashMap::new();
+      m.insert("panics".into(), Box::new(PanickingValue));
+      b.extend_claims(m);
+      let k = PasetoSymmetricKey::<V4, Local>::from(Key::<32>::from([3u8; 32]));
+      let _ = b.try_encrypt(&k);
+    });
+    let _ = crate::engine::catch(|| {
+      let mut b = PasetoBuilder::<V4, Local>::default();
+      b.set_claim(PanickingClaim);
+    });
+  }
+  if kind & 4 != 0 {
+    for i in 0..20 {
+      let _ = crate::engine::catch(|| {
+        let mut parser = new_parser(p, if i % 2 == 0 { Layer::Generic } else { Layer::Prelude });
+        let _ = parser.validate(&role, VALIDATOR_REJECTS);
+        parser.parse(&token, lk).is_ok()
+      });
+    }
+  }
+  finding
 }
 
 /// harness-side claim type: the `PasetoClaim` trait is public, so callers may define their own claims
@@ -886,6 +1011,17 @@ macro_rules! with_claim {
         let $c = TokenIdentifierClaim::from($strfn(v));
         $body;
         Ok(())
+      }
+      ClaimSpec::SharedCounter(k, n) => {
+        let cell: &'static std::sync::atomic::AtomicU64 = Box::leak(Box::new(std::sync::atomic::AtomicU64::new(*n)));
+        match CustomClaim::try_from((k.as_str(), cell)) {
+          Ok($c) => {
+            $body;
+            cell.store(n.wrapping_add(1000), std::sync::atomic::Ordering::SeqCst);
+            Ok(())
+          }
+          Err(e) => Err(claim_err(&e)),
+        }
       }
       ClaimSpec::DefaultOf(i) => {
         match *i % 7 {
